@@ -277,6 +277,9 @@ func (c *trCtx) logCall(call *ast.CallExpr, k trK) (trLines, bool) {
 
 // varType: the Lean type of a local variable (a write-only object has the type of its log)
 func (c *trCtx) varType(o types.Object, pos token.Pos) string {
+	if r, ok := trAmbientType(o); ok {
+		return r // color.NoColor, the float formatter (trans_units_tablerender.go)
+	}
 	if lv := c.logVars[o]; lv != nil {
 		return lv.typ
 	}
